@@ -346,6 +346,43 @@ def PArcs.nestData : PArcs → Nat
     max (max p.nestData (max o.nestData na)) rest.nestData
 end
 
+/-! `anonNest`: nesting of anonymous blank nodes `[ … ]` alone (what `self.nesting` of the repaired
+prettifier counts) -/
+mutual
+def PT.anonNest : PT → Nat
+  | .atom => 0
+  | .quoted s p o => max s.anonNest (max p.anonNest o.anonNest)
+  | .coll items => items.anonNest
+  | .anon arcs => 1 + arcs.anonNest
+def PTs.anonNest : PTs → Nat
+  | .nil => 0
+  | .cons t ts => max t.anonNest ts.anonNest
+def PArcs.anonNest : PArcs → Nat
+  | .nil => 0
+  | .cons p o _ annot rest => max (max p.anonNest (max o.anonNest annot.anonNest)) rest.anonNest
+end
+
+/-! ### the repaired prettifier (`MAX_BNODE_NESTING`, /repo da7f8f8)
+
+`write_bnode` on a `SubTree` blank node with `self.nesting >= MAX_BNODE_NESTING` writes the node's
+label (no further call) and defers its description to a tree of its own, written by `write_graph`
+with `nesting = 0` again; otherwise `self.nesting += 1` around `write_properties`.  `cut c lvl t` is
+the tree that `write_term` walks when entered with `self.nesting = lvl`: quoted triples, collections
+and annotations pass the counter on unchanged. -/
+mutual
+def PT.cut (c : Nat) (lvl : Nat) : PT → PT
+  | .atom => .atom
+  | .quoted s p o => .quoted (s.cut c lvl) (p.cut c lvl) (o.cut c lvl)
+  | .coll items => .coll (items.cut c lvl)
+  | .anon arcs => if lvl ≥ c then .atom else .anon (arcs.cut c (lvl + 1))
+def PTs.cut (c : Nat) (lvl : Nat) : PTs → PTs
+  | .nil => .nil
+  | .cons t ts => .cons (t.cut c lvl) (ts.cut c lvl)
+def PArcs.cut (c : Nat) (lvl : Nat) : PArcs → PArcs
+  | .nil => .nil
+  | .cons p o v annot rest => .cons (p.cut c lvl) (o.cut c lvl) v (annot.cut c lvl) (rest.cut c lvl)
+end
+
 def PTs.ofList : List PT → PTs
   | [] => .nil
   | t :: ts => .cons t (PTs.ofList ts)
